@@ -316,6 +316,59 @@ def included_values_are_per_cond_file(chk):
             chk.coverage["traces_validated_against_impl"] += 1
 
 
+def names_differing_only_in_case(chk):
+    """Task names are case sensitive (the grammar has both cases; the output directories differ): a combine over `:Build`
+    and `:build`, and an experiment group with instances `bs-1K` and `bs-1k`, describe complete acyclic graphs without
+    duplicates -- they must be accepted (with and without --check), every task runs once, and the combine directory holds
+    one entry per dependency.  A real clash (//p:x and //q:x in one combine) is still refused and nothing runs.
+    (Seed C14/l: combine compared its dependencies' names case-folded.)"""
+    import os
+    import implrun
+    from implrun import strip_ansi
+
+    root = implrun.make_project({"COND": ""})
+    log = os.path.join(root, "events.log")
+    cmd = lambda tag: "echo %s >> %s; echo %s > $COND_OUT/who" % (tag, log, tag)
+    files = {"COND": 'run_command(name="Build", run="%s")\nrun_command(name="build", run="%s")\n' % (cmd("Build"), cmd("build"))
+                     + 'combine(name="both", deps=[":Build", ":build"])\ngroup(name="top", deps=[":both"])\n'
+                     + 'run_experiment_group(name="sweep", run="%s", experiments=[ExperimentInstance(name="bs-1K"), ExperimentInstance(name="bs-1k")])\n' % cmd("inst")
+                     + 'combine(name="clash", deps=["//p:x", "//q:x"])\n',
+             "p/COND": 'run_command(name="x", run="%s")\n' % cmd("px"), "q/COND": 'run_command(name="x", run="%s")\n' % cmd("qx")}
+    for rel, text in files.items():
+        os.makedirs(os.path.dirname(os.path.join(root, rel)), exist_ok=True)
+        open(os.path.join(root, rel), "w").write(text)
+    expect = {"both": ["Build", "build"], "top": ["Build", "build"], "sweep": ["inst", "inst"]}
+    problems = []
+    for target in sorted(expect) + ["clash"]:
+        for extra in (["--check"], ["--again"]):
+            if os.path.exists(log):
+                os.unlink(log)
+            argv = ["run", "//:" + target] + extra
+            res = implrun.run_cond(argv, root, timeout=60)
+            chk.coverage["evaluations"] += 1
+            chk.count("real", "case-twins")
+            ran = sorted(open(log).read().split()) if os.path.exists(log) else []
+            text = strip_ansi(res.out + res.err)
+            if target == "clash":
+                if res.code == 0 or ran:
+                    problems.append((argv, "a combine over //p:x and //q:x (the same name twice) was accepted (exit %s, executed %r)" % (res.code, ran)))
+                continue
+            want = [] if extra == ["--check"] else expect[target]
+            if res.code != 0:
+                problems.append((argv, "rejected (exit %s): %s" % (res.code, text.strip()[-160:])))
+            elif ran != want:
+                problems.append((argv, "executed %r, expected %r" % (ran, want)))
+    both = os.path.join(root, "cond-out", "both.task")
+    entries = sorted(os.listdir(both)) if os.path.isdir(both) else None
+    if not problems and entries != ["Build", "build"]:
+        problems.append((["run", "//:both"], "the combine directory holds %r, one entry per dependency is ['Build', 'build']" % (entries,)))
+    for argv, msg in problems[:3]:
+        chk.violation("impl-violation", "names that differ only in case; `cond %s`: %s" % (" ".join(argv), msg),
+                      {"input": {"scenario": "case-twins", "files": files, "argv": argv}, "oracle_verdict": msg}, match_key={"real": "case-twins"}, size=4)
+    if not problems:
+        chk.coverage["traces_validated_against_impl"] += 8
+
+
 def unlaunchable_tasks(chk):
     """a task that CANNOT BE LAUNCHED -- the operating system refuses the command line (an embedded NUL byte, a
     character that cannot be encoded for the operating system), or a combine task's output path is taken by a regular file -- is a failed task like
@@ -672,6 +725,12 @@ def run_prop(prop, tier, seed, replay=None, extra_oracles=(), extra_part=None, e
         same_relative_name_in_two_packages(chk)
     if prop in ("C02", "C14"):
         included_values_are_per_cond_file(chk)
+    if prop == "C14":
+        names_differing_only_in_case(chk)
+    if prop == "C02":
+        import c20 as _c20
+
+        _c20.lookalike_identifiers_keep_their_own_versions(chk)    # a version of //:sweep-1 does not make //:sweep_1 cached
     if prop in ("C03", "C09"):
         unlaunchable_tasks(chk)
     if prop == "C03":
